@@ -100,7 +100,7 @@ Qed.
 Lemma pwrite_within H size off len :
   off + len <= size -> snd (host_pwrite H size false off len) = size.
 Proof.
-  intros Hle. unfold host_pwrite. destruct (I64_MAX <? off); [reflexivity|].
+  intros Hle. unfold host_pwrite. destruct (I64_MAX <? off + len); [reflexivity|].
   destruct (len =? 0); [reflexivity|]. destruct (ho_maxbytes H <=? off); [reflexivity|].
   cbn [snd]. lia.
 Qed.
